@@ -135,3 +135,7 @@ Fixpoint zrun (st : zstate) (sched : list nat) : option zstate :=
   match sched with [] => Some st | t :: r => match zstep st t with None => None | Some st' => zrun st' r end end.
 
 Definition z_using (th : zthread) : bool := match z_pc th with Z5 => true | _ => false end.
+
+(* the chain of wrappers from the object handed to the evaluators down to the raw primitive *)
+Fixpoint chain (p : prim) : list prim :=
+  p :: match p with Raw => [] | MutexW q | BatchingMutexW q | TranspilingW q => chain q end.
